@@ -837,3 +837,251 @@ Proof.
     + intros t' tp' c Hs. apply Hsub in Hs. exact (D2 t' tp' c Hs).
     + cbn. lia.
 Qed.
+
+(** ---- subscribe's critical section: push, release, return the id ---- *)
+Lemma lookup_remove_key : forall A (l : list (Z * A)) k k',
+  lookup (remove_key l k) k' = if k =? k' then None else lookup l k'.
+Proof.
+  induction l as [|[k0 v0] r IH]; intros k k'; cbn.
+  - destruct (k =? k'); reflexivity.
+  - destruct (k0 =? k) eqn:E.
+    + rewrite IH. destruct (k =? k') eqn:E1; [reflexivity|]. destruct (k0 =? k') eqn:E2; [lia|reflexivity].
+    + cbn. destruct (k0 =? k') eqn:E2.
+      * destruct (k =? k') eqn:E1; [lia|reflexivity].
+      * apply IH.
+Qed.
+
+Definition m_after_sub (m : mstate) (t id tp c : Z) : mstate :=
+  set_known (set_pend m (remove_key (m_pend m) t)) (update (m_known m) id {| k_topic := tp; k_chan := c; k_ret := true |}).
+
+Lemma is_returned_after_sub : forall m t id tp c id',
+  is_returned (m_after_sub m t id tp c) id' = if id =? id' then true else is_returned m id'.
+Proof. intros. unfold is_returned, m_after_sub; cbn. rewrite lookup_update. destruct (id =? id'); reflexivity. Qed.
+
+Lemma only_holder : forall s m t t', Inv s m -> holding (get_pc s t) = true -> holding (get_pc s t') = true -> t' = t.
+Proof.
+  intros s m t t' HI H1 H2. apply (i_lock _ _ HI) in H1. apply (i_lock _ _ HI) in H2. congruence.
+Qed.
+
+Lemma inv_sub_hold : forall s m t id tp c, Inv s m -> get_pc s t = SubHold id tp c ->
+  exists m', mon_run m (snd (step_task s t)) = MOk m' /\ Inv (fst (step_task s t)) m'.
+Proof.
+  intros s m t id tp c HI Hpc. unfold step_task. rewrite Hpc. cbn [acquired fst snd mon_run].
+  assert (Hsp : sub_pending s t id tp c) by (right; exact Hpc).
+  destruct (i_subp _ _ HI _ _ _ _ Hsp) as [Ha Hne].
+  assert (Hh : holding (get_pc s t) = true) by (rewrite Hpc; reflexivity).
+  pose proof (i_pend _ _ HI t) as Hp. unfold pend_ok in Hp. rewrite Hpc in Hp. destruct Hp as [p0 [Hp1 Hp2]].
+  exists (m_after_sub m t id tp c). split.
+  { unfold mon_step. rewrite Hp1, Hp2. destruct (lookup (m_known m) id) as [k|] eqn:E; [|reflexivity].
+    destruct (k_ret k) eqn:Er.
+    - exfalso. apply (i_ret_excl _ _ HI id t tp c); [unfold is_returned; rewrite E; exact Er|exact Hsp].
+    - pose proof (nodup_ids_inj _ _ _ (i_alloc_nd _ _ HI) (i_known _ _ HI _ _ E) Ha eq_refl) as Heq.
+      inversion Heq as [[H1 H2]]. rewrite !Z.eqb_refl. reflexivity. }
+  set (es := entries s ++ [{| e_id := id; e_topic := tp; e_chan := c |}]).
+  set (X := release_to (set_entries s es) t Idle).
+  assert (Hpcs : pcs X = update (pcs s) t Idle) by reflexivity.
+  assert (Hnoh : forall t', t <> t' -> holding (get_pc s t') = false).
+  { intros t' Hn. destruct (holding (get_pc s t')) eqn:E; [|reflexivity].
+    exfalso. apply Hn. symmetry. exact (only_holder _ _ _ _ HI Hh E). }
+  assert (Hsub : forall t' id' tp' c', sub_pending X t' id' tp' c' -> t <> t' /\ sub_pending s t' id' tp' c' /\ id' <> id).
+  { intros t' id' tp' c' H. destruct (Z.eq_dec t t') as [<-|Hn].
+    - exfalso. unfold sub_pending in H. rewrite (gp_eq _ s t Idle Hpcs) in H. destruct H; discriminate.
+    - apply (subp_neq _ s t Idle t' id' tp' c' Hpcs Hn) in H. split; [exact Hn|]. split; [exact H|].
+      intros ->. apply Hn. exact (i_subp_uniq _ _ HI _ _ _ _ _ _ _ Hsp H). }
+  assert (Hfan : forall t' tp' d rest pr, get_pc X t' = PubFan tp' d rest pr -> False).
+  { intros t' tp' d rest pr H. destruct (Z.eq_dec t t') as [<-|Hn].
+    - rewrite (gp_eq _ s t Idle Hpcs) in H. discriminate.
+    - rewrite (gp_neq _ s t Idle t' Hpcs Hn) in H. pose proof (Hnoh t' Hn) as Hf. rewrite H in Hf. discriminate. }
+  assert (Hids : ids_of es = ids_of (entries s) ++ [id]) by (unfold es; rewrite ids_of_app; reflexivity).
+  constructor; try (unchanged HI).
+  - intro t'. cbn [lock X release_to set_pc set_lock]. destruct (Z.eq_dec t t') as [<-|Hn].
+    + rewrite (gp_eq _ s t Idle Hpcs). cbn. split; discriminate.
+    + rewrite (gp_neq _ s t Idle t' Hpcs Hn), (Hnoh t' Hn). split; discriminate.
+  - cbn [entries alloc X release_to set_pc set_lock set_entries]. unfold es. apply incl_app; [exact (i_ent_alloc _ _ HI)|].
+    intros e [<-|[]]. exact Ha.
+  - cbn [entries X release_to set_pc set_lock set_entries]. rewrite Hids. apply NoDup_snoc; [exact (i_ent_nd _ _ HI)|exact Hne].
+  - intros t' id' tp' c' H. destruct (Hsub _ _ _ _ H) as [Hn [H1 H2]].
+    destruct (i_subp _ _ HI _ _ _ _ H1) as [H3 H4]. split; [exact H3|].
+    cbn [entries X release_to set_pc set_lock set_entries]. rewrite Hids. rewrite in_app_iff. cbn. intros [H5|[H5|[]]]; [tauto|congruence].
+  - intros t1 t2 id' tp1 c1 tp2 c2 H1 H2. destruct (Hsub _ _ _ _ H1) as [_ [H1' _]]. destruct (Hsub _ _ _ _ H2) as [_ [H2' _]].
+    exact (i_subp_uniq _ _ HI _ _ _ _ _ _ _ H1' H2').
+  - intros t' tp' d rest pr H. destruct (Hfan _ _ _ _ _ H).
+  - intros t' tp' d rest pr H. destruct (Hfan _ _ _ _ _ H).
+  - intro t'. destruct (Z.eq_dec t t') as [<-|Hn].
+    + unfold pend_ok. rewrite (gp_eq _ s t Idle Hpcs). cbn. rewrite lookup_remove_key, Z.eqb_refl. reflexivity.
+    + refine (pend_ok_frame s m X _ t' _ _ _ _ _ _ (i_pend _ _ HI t')); try reflexivity; try (intros; assumption); try lia.
+      * apply (gp_neq _ s t Idle t' Hpcs Hn).
+      * cbn. rewrite lookup_remove_key. destruct (t =? t') eqn:E; [lia|reflexivity].
+      * intros id' H. rewrite is_returned_after_sub. rewrite H. destruct (id =? id'); reflexivity.
+      * intros id' Hr H. cbn [entries X release_to set_pc set_lock set_entries]. rewrite Hids, in_app_iff. cbn.
+        intros [H5|[H5|[]]]; [tauto|]. subst id'. exact (i_ret_excl _ _ HI id t tp c Hr Hsp).
+  - intros id' k H. cbn in H. rewrite lookup_update in H. destruct (id =? id') eqn:E.
+    + inversion H. cbn. assert (id' = id) by lia. subst. exact Ha.
+    + exact (i_known _ _ HI _ _ H).
+  - intros e He. rewrite is_returned_after_sub. destruct (id =? e_id e) eqn:E; [left; reflexivity|].
+    destruct (i_ret_or_pend _ _ HI e He) as [H|[t' H]]; [left; exact H|]. right. exists t'.
+    destruct (Z.eq_dec t t') as [<-|Hn].
+    + exfalso. destruct H as [H|H]; rewrite Hpc in H; inversion H; lia.
+    + apply (subp_neq _ s t Idle t' _ _ _ Hpcs Hn). exact H.
+  - intros id' t' tp' c' Hr H. destruct (Hsub _ _ _ _ H) as [Hn [H1 H2]].
+    rewrite is_returned_after_sub in Hr. destruct (id =? id') eqn:E; [lia|].
+    exact (i_ret_excl _ _ HI id' t' tp' c' Hr H1).
+  - intros id' n H. destruct (i_dead _ _ HI id' n H) as [D1 [D2 D3]]. split; [|split; [|exact D3]].
+    + cbn [entries X release_to set_pc set_lock set_entries]. rewrite Hids, in_app_iff. cbn.
+      intros [H5|[H5|[]]]; [tauto|]. subst id'. exact (D2 t tp c Hsp).
+    + intros t' tp' c' Hs. destruct (Hsub _ _ _ _ Hs) as [_ [H1 _]]. exact (D2 t' tp' c' H1).
+Qed.
+
+(** ---- releasing the mutex (unsubscribe / len / publish / prune), entries may shrink ---- *)
+Lemma incl_ids : forall a b, incl a b -> incl (ids_of a) (ids_of b).
+Proof.
+  intros a b H id Hi. apply in_ids_of in Hi. destruct Hi as [e [H1 H2]]. apply in_ids_of. exists e. split; [apply H; exact H1|exact H2].
+Qed.
+
+Lemma inv_release : forall s m t es' pn m',
+  Inv s m -> holding (get_pc s t) = true -> (forall id tp c, get_pc s t <> SubHold id tp c) ->
+  incl es' (entries s) -> NoDup (ids_of es') ->
+  (pn = Idle \/ exists pr, pn = PruneWait pr) ->
+  m_known m' = m_known m -> m_pubs m' = m_pubs m -> m_last m' = m_last m ->
+  m_closed m' = m_closed m -> m_nsub m' = m_nsub m ->
+  (forall t', t <> t' -> lookup (m_pend m') t' = lookup (m_pend m) t') ->
+  pend_ok (release_to (set_entries s es') t pn) m' t ->
+  blen (m_dead m) <= blen (m_dead m') -> NoDup (map fst (m_dead m')) ->
+  (forall id n, lookup (m_dead m') id = Some n ->
+     lookup (m_dead m) id = Some n \/ dead_ok (release_to (set_entries s es') t pn) id n) ->
+  Inv (release_to (set_entries s es') t pn) m'.
+Proof.
+  intros s m t es' pn m' HI Hh Hnsh Hincl Hnd Hpn Hk Hpu Hla Hcl Hns Hpe Hpt Hdl Hdn Hd.
+  set (X := release_to (set_entries s es') t pn) in *.
+  assert (Hpcs : pcs X = update (pcs s) t pn) by reflexivity.
+  assert (Hnoh : forall t', t <> t' -> holding (get_pc s t') = false).
+  { intros t' Hn. destruct (holding (get_pc s t')) eqn:E; [|reflexivity].
+    exfalso. apply Hn. symmetry. exact (only_holder _ _ _ _ HI Hh E). }
+  assert (Hpnh : holding pn = false) by (destruct Hpn as [->|[pr ->]]; reflexivity).
+  assert (Hsub : forall t' id tp c, sub_pending X t' id tp c <-> (t <> t' /\ sub_pending s t' id tp c)).
+  { intros t' id tp c. destruct (Z.eq_dec t t') as [<-|Hn].
+    - unfold sub_pending. rewrite (gp_eq _ s t pn Hpcs). split.
+      + intros [H|H]; destruct Hpn as [->|[pr ->]]; discriminate H.
+      + intros [H _]. tauto.
+    - rewrite (subp_neq _ s t pn t' id tp c Hpcs Hn). tauto. }
+  assert (Hsubt : forall id tp c, ~ sub_pending s t id tp c).
+  { intros id tp c [H|H]; [rewrite H in Hh; discriminate|exact (Hnsh _ _ _ H)]. }
+  assert (Hfan : forall t' tp d rest pr, get_pc X t' = PubFan tp d rest pr -> False).
+  { intros t' tp d rest pr H. destruct (Z.eq_dec t t') as [<-|Hn].
+    - rewrite (gp_eq _ s t pn Hpcs) in H. destruct Hpn as [->|[pr' ->]]; discriminate.
+    - rewrite (gp_neq _ s t pn t' Hpcs Hn) in H. pose proof (Hnoh t' Hn) as Hf. rewrite H in Hf. discriminate. }
+  assert (Hret : forall id, is_returned m' id = is_returned m id) by (intro; unfold is_returned; rewrite Hk; reflexivity).
+  assert (Hent : forall id, ~ In id (ids_of (entries s)) -> ~ In id (ids_of es')).
+  { intros id H H1. apply H. exact (incl_ids _ _ Hincl id H1). }
+  constructor; try (unchanged HI).
+  - intro t'. cbn [lock X release_to set_pc set_lock]. destruct (Z.eq_dec t t') as [<-|Hn].
+    + rewrite (gp_eq _ s t pn Hpcs), Hpnh. split; discriminate.
+    + rewrite (gp_neq _ s t pn t' Hpcs Hn), (Hnoh t' Hn). split; discriminate.
+  - cbn [entries alloc X release_to set_pc set_lock set_entries]. intros e He. apply (i_ent_alloc _ _ HI). apply Hincl. exact He.
+  - exact Hnd.
+  - intros t' id tp c H. apply Hsub in H. destruct H as [_ H]. destruct (i_subp _ _ HI _ _ _ _ H) as [H1 H2].
+    split; [exact H1|]. apply Hent. exact H2.
+  - intros t1 t2 id tp1 c1 tp2 c2 H1 H2. apply Hsub in H1. apply Hsub in H2.
+    exact (i_subp_uniq _ _ HI _ _ _ _ _ _ _ (proj2 H1) (proj2 H2)).
+  - intros t' tp d rest pr H. destruct (Hfan _ _ _ _ _ H).
+  - intros t' tp d rest pr H. destruct (Hfan _ _ _ _ _ H).
+  - intro t'. destruct (Z.eq_dec t t') as [<-|Hn]; [exact Hpt|].
+    refine (pend_ok_frame s m X m' t' _ _ _ _ _ _ (i_pend _ _ HI t')); try (intros; assumption).
+    + apply (gp_neq _ s t pn t' Hpcs Hn).
+    + apply Hpe. exact Hn.
+    + intros id H. rewrite Hret. exact H.
+    + intros id _ H. apply Hent. exact H.
+  - rewrite Hk. exact (i_known _ _ HI).
+  - intros e He. rewrite Hret. destruct (i_ret_or_pend _ _ HI e He) as [H|[t' H]]; [left; exact H|].
+    right. exists t'. apply Hsub. split; [|exact H]. intros <-. exact (Hsubt _ _ _ H).
+  - intros id t' tp c Hr H. rewrite Hret in Hr. apply Hsub in H. exact (i_ret_excl _ _ HI id t' tp c Hr (proj2 H)).
+  - rewrite Hcl. exact (i_closed _ _ HI).
+  - rewrite Hpu. exact (i_pubs_len _ _ HI).
+  - rewrite Hpu. exact (i_pubs _ _ HI).
+  - intro id. unfold get_last. rewrite Hla. exact (i_last _ _ HI id).
+  - intros id n H. destruct (Hd id n H) as [H1|H1]; [|exact H1].
+    destruct (i_dead _ _ HI id n H1) as [D1 [D2 D3]]. split; [apply Hent; exact D1|]. split; [|exact D3].
+    intros t' tp c Hs. apply Hsub in Hs. exact (D2 t' tp c (proj2 Hs)).
+  - exact Hdn.
+  - rewrite Hns. exact (i_nsub _ _ HI).
+Qed.
+
+(** ---- helpers for the return events ---- *)
+Lemma mark_dead_all_lookup : forall ids d n id',
+  lookup (mark_dead_all d n ids) id' =
+  match lookup d id' with Some x => Some x | None => if zmem id' ids then Some n else None end.
+Proof.
+  unfold mark_dead_all. induction ids as [|i r IH]; intros d n id'; cbn [fold_left].
+  - cbn. destruct (lookup d id'); reflexivity.
+  - rewrite IH, mark_dead_lookup. destruct (lookup d id') eqn:E; [reflexivity|].
+    cbn [zmem existsb]. fold (zmem id' r). destruct (i =? id') eqn:E1.
+    + replace (id' =? i) with true by lia. reflexivity.
+    + replace (id' =? i) with false by lia. reflexivity.
+Qed.
+
+Lemma mark_dead_all_nodup : forall ids d n, NoDup (map fst d) -> NoDup (map fst (mark_dead_all d n ids)).
+Proof.
+  unfold mark_dead_all. induction ids as [|i r IH]; intros d n H; cbn [fold_left]; [exact H|].
+  apply IH. apply mark_dead_nodup. exact H.
+Qed.
+
+Lemma mark_dead_all_len : forall ids d n, blen d <= blen (mark_dead_all d n ids).
+Proof.
+  unfold mark_dead_all. induction ids as [|i r IH]; intros d n; cbn [fold_left]; [lia|].
+  pose proof (mark_dead_len d n i). pose proof (IH (mark_dead d n i) n). lia.
+Qed.
+
+Lemma In_lookup : forall A (l : list (Z * A)) k, In k (map fst l) -> exists v, lookup l k = Some v.
+Proof.
+  induction l as [|[k0 v0] r IH]; intros k H; cbn in *; [tauto|].
+  destruct (k0 =? k) eqn:E; [eexists; reflexivity|]. destruct H as [H|H]; [lia|]. apply IH. exact H.
+Qed.
+
+Lemma NoDup_app_disj : forall A (a b : list A), NoDup a -> NoDup b -> (forall x, In x a -> ~ In x b) -> NoDup (a ++ b).
+Proof.
+  induction a as [|x r IH]; intros b Ha Hb Hd; cbn; [exact Hb|].
+  inversion Ha; subst. constructor.
+  - rewrite in_app_iff. intros [H|H]; [tauto|]. exact (Hd x (or_introl eq_refl) H).
+  - apply IH; try assumption. intros y Hy. apply Hd. right. exact Hy.
+Qed.
+
+Lemma count_bound : forall s m, Inv s m -> blen (entries s) + blen (m_dead m) <= blen (alloc s).
+Proof.
+  intros s m HI.
+  assert (H : NoDup (ids_of (entries s) ++ map fst (m_dead m))).
+  { apply NoDup_app_disj; [exact (i_ent_nd _ _ HI)|exact (i_dead_nd _ _ HI)|].
+    intros x Hx Hd. apply In_lookup in Hd. destruct Hd as [n Hn].
+    destruct (i_dead _ _ HI _ _ Hn) as [D1 _]. exact (D1 Hx). }
+  assert (Hi : incl (ids_of (entries s) ++ map fst (m_dead m)) (ids_of (alloc s))).
+  { apply incl_app; [apply incl_ids; exact (i_ent_alloc _ _ HI)|].
+    intros x Hd. apply In_lookup in Hd. destruct Hd as [n Hn].
+    destruct (i_dead _ _ HI _ _ Hn) as [_ [_ [D3 _]]]. exact D3. }
+  pose proof (NoDup_incl_length H Hi) as Hl. rewrite app_length in Hl.
+  unfold blen, ids_of in *. rewrite !map_length in Hl. lia.
+Qed.
+
+Lemma filter_all_true : forall (f : entry -> bool) l, (forall e, In e l -> f e = true) -> filter f l = l.
+Proof.
+  induction l as [|x r IH]; intro H; cbn; [reflexivity|].
+  rewrite (H x (or_introl eq_refl)). f_equal. apply IH. intros e He. apply H. right. exact He.
+Qed.
+
+Lemma dead_ok_intro : forall s m X id, Inv s m ->
+  (is_returned m id = true \/ In id (ids_of (entries s))) ->
+  ~ In id (ids_of (entries X)) ->
+  (forall t' tp c, sub_pending X t' id tp c -> sub_pending s t' id tp c) ->
+  alloc X = alloc s -> npub X = npub s -> lastq X = lastq s -> chans X = chans s ->
+  dead_ok X id (npub s).
+Proof.
+  intros s m X id HI Hor Hni Hsub Ha Hn Hl Hc. unfold dead_ok. rewrite Ha, Hn.
+  split; [exact Hni|]. split; [|split; [|split; [lia|split]]].
+  - intros t' tp c Hs. apply Hsub in Hs. destruct Hor as [Hr|Hi].
+    + exact (i_ret_excl _ _ HI id t' tp c Hr Hs).
+    + destruct (i_subp _ _ HI _ _ _ _ Hs) as [_ H]. exact (H Hi).
+  - destruct Hor as [Hr|Hi].
+    + apply is_returned_known in Hr. destruct Hr as [k [Hk _]]. eapply in_mk_ids. exact (i_known _ _ HI _ _ Hk).
+    + exact (incl_ids _ _ (i_ent_alloc _ _ HI) id Hi).
+  - unfold get_lastq. rewrite Hl. exact (i_lastq _ _ HI id).
+  - intros c mg q [ch [H1 H2]] _. rewrite Hc in H1. assert (Hq : queued s c mg q) by (exists ch; tauto).
+    exact (proj1 (i_q _ _ HI _ _ _ Hq)).
+Qed.
